@@ -20,8 +20,8 @@ import (
 // C12 — Cap-bearing operations never push the match count above the cap.
 
 type C12Patch struct {
-	Key  int    `json:"key"`           // >= 0: existing record index; < 0: a new key "c<-Key>" (needs the batch's Create)
-	Ops  []POp  `json:"ops"`           // explicit-key mutation
+	Key  int    `json:"key"` // >= 0: existing record index; < 0: a new key "c<-Key>" (needs the batch's Create)
+	Ops  []POp  `json:"ops"` // explicit-key mutation
 	Cond *PCond `json:"cond,omitempty"`
 }
 
@@ -596,7 +596,7 @@ func TestC12Main(t *testing.T) {
 	}
 	pbt.Main(t, pbt.Spec[C12Scenario]{
 		ID: "C12", Facet: "main", Rule: c12Rule,
-		Quick: 1200, Thorough: 40000,
+		Quick: 6000, Thorough: 150000,
 		Gen: genC12(open, idxOnly), Run: runC12,
 	})
 }
@@ -818,11 +818,10 @@ func TestC12Budget(t *testing.T) {
 		Rule: "sequential: 1–3 PatchTreasures(Cap) batches of 1–6 explicit-key patches (duplicate keys, conditions, creates with a seed) on 3–14 records; every per-key status, CapReached, the stored bodies and the " +
 			"matching count are compared with a model of the documented four-cell rule (only not-matching→matching consumes one unit of MaxMatching − currentMatching; refused ⇒ CAP_EXCEEDED, no mutation; CapReached iff one was refused). " +
 			"Non-trivial = at least one transition accepted and one refused.",
-		Quick: 1500, Thorough: 40000,
+		Quick: 6000, Thorough: 100000,
 		Gen: genC12Seq, Run: runC12Seq,
 	})
 }
-
 
 // --- witness: the selection-based cap count only sees the walked index ---------------
 
